@@ -170,12 +170,12 @@ theorem mem_scopesForValueOwner {l : Ledger} {ex : Addr} {d : ScopeId} {o : Opti
     have hne : bal l ex d ≠ 0 := by rw [h1]; decide
     exact ⟨d, ⟨mem_dedup.mpr (bal_ne_zero_mem_denom hne), by simp [h1]⟩, rfl⟩
 
-theorem write_effect {s s' : State} {id : ScopeId} {owners : List Addr} {vo : Addr} {signers : List Addr}
-    (hinv : Inv s) (h : writeScope s id owners vo signers = .ok s') :
+theorem write_effect {s s' : State} {id : ScopeId} {owners : List Party} {rollup : Bool} {vo : Addr} {signers : List Addr}
+    (hinv : Inv s) (h : writeScope s id owners rollup vo signers = .ok s') :
     hasScope s' id = true ∧ (vo ≠ "" → HolderIs s'.ledger id (some vo)) ∧
     (∀ d, d ≠ id → ∀ o, HolderIs s.ledger d o → HolderIs s'.ledger d o) := by
   unfold writeScope at h
-  cases hv : validateWriteScope s id owners vo signers with
+  cases hv : validateWriteScope s id owners rollup vo signers with
   | error e => rw [hv] at h; simp at h
   | ok r =>
     obtain ⟨a, agents⟩ := r
@@ -228,7 +228,7 @@ theorem validateDeleteScope_wf {s : State} {id : ScopeId} {signers : List Addr} 
     | none => rw [hf] at h; simp at h
     | some e =>
       rw [hf] at h; simp only at h
-      cases hp : validateAllRequiredSigned { grants := s.grants } signers .delete e.owners [] with
+      cases hp : deleteParties s e signers with
       | error er => rw [hp] at h; simp at h
       | ok r =>
         obtain ⟨a1, used1⟩ := r
@@ -247,7 +247,7 @@ theorem validateDeleteScope_wf {s : State} {id : ScopeId} {signers : List Addr} 
             | ok a3 =>
               rw [hc] at h; simp at h
               obtain ⟨rfl, rfl⟩ := h
-              have hw1 := validateAllRequiredSigned_wf (authWf_init _) hp
+              have hw1 := deleteParties_wf hp
               exact validateSmartContractSigners_wf (validateScopeValueOwnersSigners_spec hw1 hv).1 hc
 
 theorem validateUpdateValueOwners_wf {s : State} {links : List Link} {proposed : Addr} {signers : List Addr}
@@ -270,10 +270,10 @@ theorem validateUpdateValueOwners_wf {s : State} {links : List Link} {proposed :
           obtain ⟨rfl, rfl⟩ := h
           exact (validateScopeValueOwnersSigners_spec (authWf_init _) hs).1
 
-theorem write_grants {s s' : State} {id : ScopeId} {owners : List Addr} {vo : Addr} {signers : List Addr}
-    (hinv : Inv s) (h : writeScope s id owners vo signers = .ok s') : GrantsSub s s' := by
+theorem write_grants {s s' : State} {id : ScopeId} {owners : List Party} {rollup : Bool} {vo : Addr} {signers : List Addr}
+    (hinv : Inv s) (h : writeScope s id owners rollup vo signers = .ok s') : GrantsSub s s' := by
   unfold writeScope at h
-  cases hv : validateWriteScope s id owners vo signers with
+  cases hv : validateWriteScope s id owners rollup vo signers with
   | error e => rw [hv] at h; simp at h
   | ok r =>
     obtain ⟨a, agents⟩ := r
